@@ -44,6 +44,17 @@ package perio
 //@     invariant [wf] perioWF(s)
 //@   loop range(s.perioList)#2:
 //@     invariant [wf] perioWF(s)
+//@   loop range(perioGroup.urrids):
+//@     modifies lSeidUrridsMap[_]
+//@     invariant [dom]   forall sd uint64 :: sd in lSeidUrridsMap ==> sd in visited && sd in perioGroup.urrids
+//@     invariant [extra] forall sd uint64; j int :: sd in lSeidUrridsMap && 0 <= j && j < len(lSeidUrridsMap[sd]) ==> lSeidUrridsMap[sd][j] in perioGroup.urrids[sd]
+//@     invariant [all]   forall sd uint64; u uint32 :: sd in visited && sd in perioGroup.urrids && u in perioGroup.urrids[sd] ==>
+//@                         sd in lSeidUrridsMap && (exists j int :: 0 <= j && j < len(lSeidUrridsMap[sd]) && lSeidUrridsMap[sd][j] == u)
+//@   loop range(urrIds):
+//@     modifies lSeidUrridsMap[_]
+//@     invariant [others] forall sd uint64 :: sd != lSeid ==> ((sd in lSeidUrridsMap) == before(sd in lSeidUrridsMap)) && (sd in lSeidUrridsMap ==> lSeidUrridsMap[sd] == before(lSeidUrridsMap[sd]))
+//@     invariant [extra]  forall j int :: lSeid in lSeidUrridsMap && 0 <= j && j < len(lSeidUrridsMap[lSeid]) ==> lSeidUrridsMap[lSeid][j] in urrIds
+//@     invariant [all]    forall u uint32 :: u in visited ==> lSeid in lSeidUrridsMap && (exists j int :: 0 <= j && j < len(lSeidUrridsMap[lSeid]) && lSeidUrridsMap[lSeid][j] == u)
 //@   loop range(usars):
 //@     modifies usars[_]
 //@     invariant [n]    len(rpts) == idx
@@ -56,7 +67,10 @@ package perio
 //@   at call stopTicker#2:
 //@     assert [all]   period in s.perioList && recv == s.perioList[period]
 //@   at call s.queryURR:
-//@     assert [group] e.period in s.perioList
+//@     assert [group] e.period in s.perioList && perioGroup == s.perioList[e.period]
+//@     assert [nonemissing] forall sd uint64; u uint32 :: sd in perioGroup.urrids && u in perioGroup.urrids[sd] ==>
+//@                         sd in arg0 && (exists j int :: 0 <= j && j < len(arg0[sd]) && arg0[sd][j] == u)
+//@     assert [noneextra]   forall sd uint64; j int :: sd in arg0 && 0 <= j && j < len(arg0[sd]) ==> sd in perioGroup.urrids && arg0[sd][j] in perioGroup.urrids[sd]
 //@   at call NotifySessReport:
 //@     assert [seid]  arg0.SEID == seid && len(arg0.Reports) == len(usars)
 //@     assert [perio] forall j int :: 0 <= j && j < len(usars) ==> usars[j].USARTrigger.Flags & report.USAR_TRIG_PERIO != 0
